@@ -42,7 +42,8 @@ def gen_cases(tier, seed):
         if q < 0.055:
             # a user callback other than a plan function fails: an observer notification, the retry decorator, transform_physical
             out.append({"seed": s, "mode": "callback_fault", "n": r.randint(1, 14), "W": r.choice([1, 2, 4, 8]), "sched": r.choice(["default", "random"]),
-                        "where": r.choice(["obs_total", "obs_running", "obs_completed", "obs_failed", "retry_wrap", "retry_call", "transform_raise", "transform_none"]),
+                        "where": r.choice(["obs_total", "obs_running", "obs_completed", "obs_failed", "retry_wrap", "retry_call", "transform_raise", "transform_none",
+                                           "html_output_raises", "html_path_missing_dir", "html_output_raises"]),
                         "j": r.choice([1, 1, 2, 3, 5]), "kind": r.choice(["exc", "exc", "base"]), "cfg": {"out": r.choice(["all", "sinks"])},
                         "max_errors": r.choice([0, 0, 2, None])})
             continue
@@ -50,7 +51,9 @@ def gen_cases(tier, seed):
             # the operating system refuses a new thread / the caller is interrupted inside Thread.start(): run must still end and leave nothing behind
             out.append({"seed": s, "mode": "thread_start_fault", "n": r.randint(1, 12), "W": r.choice([1, 2, 3, 4, 8]), "sched": r.choice(["default", "random"]),
                         "k": r.choice([1, 1, 2, 3, 5]), "kind": r.choice(["refused", "refused", "kbi_after_start", "kbi_before_start"]),
-                        "cfg": {"out": r.choice(["all", "sinks"])}})
+                        "cfg": {"out": r.choice(["all", "sinks"])},
+                        # half of them: the calls already in flight when the pool is torn down fail afterwards and exceed the error limit
+                        **({"faults": {"p": r.choice([0.5, 1.0]), "kinds": ["exc"]}, "max_errors": r.choice([0, 0, 1])} if r.random() < 0.5 else {})})
             continue
         if q < 0.16:
             # registry runs in which a store operation or modified-time query (of a stored call, a source or a registered literal) raises
@@ -221,6 +224,45 @@ def run_callback_fault(desc):
             d["faults"] = {"p": 0.5, "kinds": ["exc"]}
     else:
         progress = None
+    if where.startswith("html_"):
+        # a bundled display whose output keeps failing until the end of the run (directory removed, disk full, raising callback)
+        import uberjob.progress as up
+
+        state["fired"] = True
+        state["display"] = True
+
+        class CountingEvent(threading.Event):
+            """the display's stop event: once it is set, a correct update loop sees it at its next wait and ends. A loop that keeps coming back
+            (bounded: 25 more waits) will never let run return - a livelock, which kernel-state sampling cannot see (the thread is busy)."""
+
+            def __init__(self):
+                super().__init__()
+                self.after_set = 0
+
+            def wait(self, timeout=None):
+                r_ = super().wait(timeout)
+                if r_:
+                    self.after_set += 1
+                    if self.after_set == 25:
+                        abort.abort_with({"status": "violation", "mechanism": "hang",
+                                          "detail": f"[{where}] the display's update thread came back to its stop event 25 times after the event was set: "
+                                                    "the observer's __exit__ (and with it run) never returns",
+                                          "witness": {"desc": desc}, "counters": {"livelocks": 1}})
+                return r_
+
+        def with_counting_event(obs_):
+            if isinstance(getattr(obs_, "_done_event", None), threading.Event):
+                obs_._done_event = CountingEvent()
+            return obs_
+
+        if where == "html_output_raises":
+            def out(b):
+                raise OSError(28, "No space left on device")
+            obs_f = lambda: with_counting_event(up.HtmlProgressObserver(out, initial_update_delay=0.0005, min_update_interval=0.0005, max_update_interval=0.002))
+        else:
+            missing = "/nonexistent-dir-for-vmon/sub/progress.html"
+            obs_f = lambda: with_counting_event(up.HtmlProgressObserver(lambda b: open(missing, "wb").write(b), initial_update_delay=0.0005, min_update_interval=0.0005, max_update_interval=0.002))
+        progress = up.Progress(obs_f)
     if where in ("retry_wrap", "retry_call"):
         def retry(f):
             if where == "retry_wrap":
@@ -257,7 +299,7 @@ def run_callback_fault(desc):
             bad = f"thread(s) created by run still alive after it returned/raised ({R.exc!r}): {[t.name for t in leaked]}"
         elif H.seq != R.seq_at_return:
             bad = f"{H.seq - R.seq_at_return} event(s) were stamped after run returned/raised"
-    if bad is None and state["fired"] and R.exc is None:
+    if bad is None and state["fired"] and R.exc is None and not state.get("display"):
         bad = f"the failing callback ({where}) was swallowed: run returned normally"
     res = {"status": "ok", "counters": {"callback_fault_runs": 1, "callback_faults_fired": int(state["fired"]), "thread_census_checks": 1},
            "sets": {"callback_fault_outcomes": [f"{where}/{kind}->{type(R.exc).__name__}"]}, "nontrivial": state["fired"],
